@@ -750,6 +750,59 @@ fn judge(st: &AggState, info: &RunInfo) -> Verdict {
         }
     }
 
+    // (e) bounded progress of REGISTRATION: with a healthy aggregator (open round, no fault armed, the signer has stake)
+    // the signer gets its registration for the epoch acknowledged within the cycles it needs to reach a registered
+    // state (+2); a registered state without any acknowledged registration in the epoch is the same failure, seen at once
+    let sut_ack_in = |e: u64, until_step: u32| st.registrations.iter().any(|r| r.from_sut && r.receipt_epoch == e && r.step <= until_step);
+    let mut reg_reported = false;
+    for (i, start) in info.trace.iter().enumerate() {
+        if reg_reported || start.fault_armed || start.state == "-" {
+            continue;
+        }
+        let e = start.epoch;
+        if !st.stakes.get(&e).is_some_and(|m| m.contains_key(&st.sut_party)) {
+            continue;
+        }
+        let to_registered = match (start.state.as_str(), start.state_epoch) {
+            ("Init", _) => 2,
+            ("Unregistered", Some(se)) if se == e => 1,
+            ("ReadyToSign", Some(se)) | ("RegisteredNotAbleToSign", Some(se)) if se == e => 0,
+            _ => 2,
+        };
+        let need = to_registered + 2;
+        let mut ticks = 0;
+        for rec in &info.trace[i + 1..] {
+            match rec.kind {
+                StepKind::Disturbance => break,
+                StepKind::Neutral => continue,
+                StepKind::Tick => ticks += 1,
+            }
+            if rec.epoch != e {
+                break;
+            }
+            if ticks >= need {
+                if sut_ack_in(e, rec.step) {
+                    v.labels.push("registration-progress-judged".into());
+                } else {
+                    reg_reported = true;
+                    v.violations.push((
+                        "e-registration-stalled".into(),
+                        format!(
+                            "epoch {e}: healthy aggregator (round open, no fault armed) after step {} (state {} {:?}), {ticks} undisturbed cycles until step {} (state now {}):                              no registration of the signer was acknowledged during this epoch (requests: {:?})",
+                            start.step,
+                            start.state,
+                            start.state_epoch,
+                            rec.step,
+                            rec.state,
+                            st.reg_requests.iter().filter(|r| r.receipt_epoch == e).map(|r| (r.step, r.status)).collect::<Vec<_>>()
+                        ),
+                    ));
+                }
+                break;
+            }
+        }
+    }
+
     // (d) bounded progress after the final restart
     if let Some((e, imm)) = info.final_beacon {
         let want = format!("{:?}", SignedEntityType::CardanoDatabase(mithril_common::entities::CardanoDbBeacon::new(e, imm)));
